@@ -165,6 +165,15 @@ func (x *Exec) doCallVals(st *State, c *ssa.CallCommon, fnv Val, args []Val, con
 			x.applyContract(st, con, name, names, append([]Val{recv}, args...), sig, cont, ins)
 			return
 		}
+		// a value of a named func type of a package declared `noeffect` (context.CancelFunc)
+		if nt, ok := c.Value.Type().(*types.Named); ok && nt.Obj().Pkg() != nil {
+			full := nt.Obj().Pkg().Path() + "." + nt.Obj().Name()
+			if r := x.ruleForName(full); r != nil && r.NoEffect {
+				x.trusted["rule "+r.Prefix+" (values of func type "+full+" have no effect on modelled state)"]++
+				cont(st, x.freshResults(st, sig))
+				return
+			}
+		}
 		x.unknownCall(st, "dynamic call", sig, args, cont)
 		return
 	}
